@@ -24,7 +24,7 @@ NSHARDS = 16
 
 def plan(tier, seed):
     return [{"shard": i, "nshards": NSHARDS, "nmax": 6 if tier == "quick" else 7,
-             "n_random": 160 if tier == "quick" else 6000,
+             "n_random": 160 if tier == "quick" else 60000,
              "corpus_max": 2000 if tier == "quick" else 10 ** 9} for i in range(NSHARDS)]
 
 
